@@ -428,6 +428,7 @@ func newFixture() *fixture {
 		runtime.GC()
 	}
 	leakedStarts = rawCount().starts
+	parkedHandlers = 0
 	f := &fixture{rec: tsx.NewRecorder(), key: make([]byte, 32), iv: make([]byte, 16)}
 	for i := range f.key {
 		f.key[i] = byte(i*7 + 3)
@@ -460,12 +461,27 @@ func freePort() string {
 
 var lastStartErr string
 
+// parkedHandlers: connection handlers that are known to be parked in a read, waiting for the
+// next bytes of a client the harness is holding in the middle of its handshake (staged step
+// of sub-check b).  Such a handler cannot queue anything until the harness lets the client
+// write, so a state with exactly these handlers alive is quiescent.
+var parkedHandlers int
+
 // startProxy issues `socks add <port>` on a free port and waits until the accept loop of
 // that proxy is parked in Accept.  ok=false: no port could be bound (another process took
 // it between our probe and Havoc's Listen) — an infrastructure condition, not a verdict.
-func (f *fixture) startProxy() (string, bool) {
+func (f *fixture) startProxy() (string, bool) { return f.startProxyAt("") }
+
+// startProxyAt: on the given port (one attempt) or, with "", on a free one.
+func (f *fixture) startProxyAt(fixed string) (string, bool) {
 	for attempt := 0; attempt < 6; attempt++ {
-		port := freePort()
+		port := fixed
+		if fixed != "" && attempt > 0 {
+			return "", false
+		}
+		if port == "" {
+			port = freePort()
+		}
 		if port == "" {
 			lastStartErr = "net.Listen(127.0.0.1:0) failed: no free port"
 			continue
@@ -1031,7 +1047,7 @@ func (c *cli) readReply(handlerWrites bool) ([]byte, error) {
 // connection of the case that reached the point where a relay goroutine exists for it.
 func (f *fixture) quiesce(clients []*cli) bool {
 	return waitFor(waitBound, func() bool {
-		if count().handlers != 0 {
+		if count().handlers != parkedHandlers {
 			return false
 		}
 		spin, read := 0, 0
@@ -1055,7 +1071,7 @@ func (f *fixture) quiesce(clients []*cli) bool {
 			}
 		}
 		n := count()
-		return n.handlers == 0 && n.readers == spin+read && n.readersInRead == read
+		return n.handlers == parkedHandlers && n.readers == spin+read && n.readersInRead == read
 	})
 }
 
@@ -1064,7 +1080,7 @@ func (f *fixture) quiesce(clients []*cli) bool {
 func waitReaders(want, wantInRead int) bool {
 	return waitFor(waitBound, func() bool {
 		n := count()
-		return n.handlers == 0 && n.readers == want && n.readersInRead == wantInRead
+		return n.handlers == parkedHandlers && n.readers == want && n.readersInRead == wantInRead
 	})
 }
 
